@@ -11,7 +11,7 @@ the kernel (`decide +kernel`) on every half / every byte.  The kernel has GMP fa
 *primitive* `Nat.add/sub/mul/div/mod/pow/log2/land/lor/xor/shiftLeft/shiftRight/beq/ble` on
 literals, but reaching them through the type-class notation (`HAnd.hAnd → AndOp.and → Nat.land`) and
 through `if … then` on a `Decidable` proposition (`Nat.decEq`, a dependent match carrying proofs)
-costs 10–80 µs per occurrence, far more than the operation itself.  Hence, *inside
+costs roughly 10–80 µs per occurrence (measured), far more than the operation itself.  Hence, *inside
 `section NatCore` only*, the usual operator tokens are re-bound by local macros to the primitive
 `Nat` functions they unfold to anyway (`a &&& b` is `Nat.land a b`, `a == b` is `Nat.beq a b`, …)
 and conditions are `Bool`s (`bif`, `≤?`, `<?`).  Nothing else changes: it reads like the Rust and
@@ -52,8 +52,8 @@ def isInf16N (h : Nat) : Bool := h &&& 0x7FFF == 0x7C00
 
 /-! The two conversions are the Rust functions branch for branch, with the same masks and shifts.
 They are cut into one small definition per branch, and the Rust locals `half_sign`, `half_exp`, …
-are one-line functions of the input instead of `let`s: the kernel copies the rest of a body at
-every `let`, which made a 65 536-fold evaluation of the monolithic versions three times slower. -/
+are one-line functions of the input instead of `let`s (the kernel substitutes, i.e. copies, the
+rest of a body at every `let` and at every unfolding, so small bodies are what it evaluates best). -/
 
 def halfSign (i : Nat) : Nat := i &&& 0x8000
 def halfExp (i : Nat) : Nat := i &&& 0x7C00
